@@ -373,6 +373,10 @@ func otherCerts(s p7Seed, rng *rand.Rand) map[string]*x509.Certificate {
 			}
 		}
 	}
+	// another key under the names of the signer's certificate and of its issuer (other serial numbers):
+	// a verifier that matches certificates by name alone takes them for the signer or its authority
+	out["other-key-named-as-signers-issuer"] = mintCertRawName(k2, s.cert.RawIssuer, big.NewInt(424242))
+	out["other-key-named-as-signer"] = mintCertRawName(k2, s.cert.RawSubject, big.NewInt(434343))
 	out["unrelated"] = simpleCert(k2, "unrelated", 999)
 	return out
 }
@@ -818,10 +822,57 @@ func p7Mutants(s p7Seed, rng *rand.Rand, nflip int) [][2]interface{} {
 		d.val = randBytes(rng, 32)
 		return true
 	})
+	// the optional unauthenticatedAttributes [1] behind the signature: nothing signs them
+	unauth := func(sd *dnode, attrs ...*dnode) bool {
+		sis := signerInfos(sd)
+		if sis == nil || len(sis.children) == 0 {
+			return false
+		}
+		si := sis.children[0]
+		if last := si.children[len(si.children)-1]; last.tag != 0x04 {
+			return false
+		}
+		si.children = append(si.children, &dnode{tag: 0xa1, children: attrs})
+		return true
+	}
+	attr := func(oid []byte, val *dnode) *dnode {
+		return &dnode{tag: 0x30, children: []*dnode{{tag: 0x06, val: oid}, {tag: 0x31, children: []*dnode{val}}}}
+	}
+	edit("unauthenticated-attribute-unknown", func(sd *dnode) bool {
+		// a countersignature-like attribute, as timestamping tools add
+		return unauth(sd, attr([]byte{0x2a, 0x86, 0x48, 0x86, 0xf7, 0x0d, 0x01, 0x09, 0x06}, &dnode{tag: 0x04, val: randBytes(rng, 24)}))
+	})
+	edit("unauthenticated-messagedigest", func(sd *dnode) bool { return addUnauthMessageDigest(sd, rng.Intn(2) == 0) })
+	edit("signature-add-leading-zero", func(sd *dnode) bool {
+		sis := signerInfos(sd)
+		if sis == nil || len(sis.children) == 0 {
+			return false
+		}
+		si := sis.children[0]
+		last := si.children[len(si.children)-1]
+		if last.tag != 0x04 {
+			return false
+		}
+		last.val = append(make([]byte, 1+rng.Intn(7)), last.val...)
+		return true
+	})
+	edit("signature-strip-leading-octet", func(sd *dnode) bool {
+		sis := signerInfos(sd)
+		if sis == nil || len(sis.children) == 0 {
+			return false
+		}
+		si := sis.children[0]
+		last := si.children[len(si.children)-1]
+		if last.tag != 0x04 || len(last.val) < 2 {
+			return false
+		}
+		last.val = append([]byte{}, last.val[1:]...)
+		return true
+	})
 	add("truncated", s.blob[:rng.Intn(len(s.blob))])
 	add("appended", append(append([]byte{}, s.blob...), randBytes(rng, 1+rng.Intn(8))...))
 	for _, content := range []string{"replace-content", "replace-content-with-empty", "spc-digest-swap", "replace-messagedigest"} {
-		for _, free := range []string{"signer-digestalg-other", "signeddata-digestalgs-other", "signer-encalg-other", "drop-certificates"} {
+		for _, free := range []string{"signer-digestalg-other", "signeddata-digestalgs-other", "signer-encalg-other", "drop-certificates", "unauthenticated-messagedigest"} {
 			compound(content, free)
 		}
 	}
@@ -829,3 +880,48 @@ func p7Mutants(s p7Seed, rng *rand.Rand, nflip int) [][2]interface{} {
 }
 
 type timeHolder struct{ t timeT }
+
+// addUnauthMessageDigest appends unauthenticatedAttributes [1] to the first signer entry of a
+// SignedData node: a messageDigest of the content as it is now (and optionally a contentType),
+// where no signature covers them.
+func addUnauthMessageDigest(sd *dnode, withContentType bool) bool {
+	var sis *dnode
+	for i, ch := range sd.children {
+		if ch.tag == 0x31 && i >= 2 {
+			sis = ch
+		}
+	}
+	if sis == nil || len(sis.children) == 0 {
+		return false
+	}
+	si := sis.children[0]
+	if last := si.children[len(si.children)-1]; last.tag != 0x04 {
+		return false
+	}
+	attr := func(oid []byte, val *dnode) *dnode {
+		return &dnode{tag: 0x30, children: []*dnode{{tag: 0x06, val: oid}, {tag: 0x31, children: []*dnode{val}}}}
+	}
+	ci := sd.at(2)
+	var content []byte
+	if ci != nil && len(ci.children) >= 2 && len(ci.children[1].children) > 0 {
+		inner := ci.children[1].children[0]
+		enc := inner.encode()
+		// the digest is over the value octets: drop tag and length
+		hl := len(enc) - len(inner.val)
+		if inner.children != nil {
+			n := 0
+			for _, ch := range inner.children {
+				n += len(ch.encode())
+			}
+			hl = len(enc) - n
+		}
+		content = enc[hl:]
+	}
+	d := sha256.Sum256(content)
+	as := []*dnode{attr([]byte{0x2a, 0x86, 0x48, 0x86, 0xf7, 0x0d, 0x01, 0x09, 0x04}, &dnode{tag: 0x04, val: d[:]})}
+	if o := sd.at(2, 0); o != nil && withContentType {
+		as = append(as, attr([]byte{0x2a, 0x86, 0x48, 0x86, 0xf7, 0x0d, 0x01, 0x09, 0x03}, &dnode{tag: 0x06, val: o.val}))
+	}
+	si.children = append(si.children, &dnode{tag: 0xa1, children: as})
+	return true
+}
